@@ -85,14 +85,128 @@ def _add_arguments(dw):
     calls = [unparse(n) for n in ast.walk(loops[0]) if isinstance(n, ast.Call) and unparse(n.func) == "group.add_argument"]
     if calls != ["group.add_argument(*wrapped_field.option_strings, **arg_options)"]:
         raise Unrecognised(f"add_arguments: registration call {calls}")
-    title = find_def(dw, "title", cls="DataclassWrapper")
-    tb = clean(title.body)
-    want = ast.parse(
-        "names_string = f\"\"\" [{', '.join(f\"'{dest}'\" for dest in self.destinations)}]\"\"\"\n"
-        "title = self.dataclass.__qualname__ + names_string\n"
-        "return title\n").body
-    if [ast.dump(x) for x in tb] != [ast.dump(x) for x in want]:
-        raise Unrecognised(f"DataclassWrapper.title: {[unparse(x) for x in tb]}")
+
+
+def _str_expr(n, env):
+    """a string-valued expression over the names in env (f-strings, +, ', '.join(<f-string> for x in <list name>))"""
+    if isinstance(n, ast.Constant) and isinstance(n.value, str):
+        return cstr(n.value)
+    if isinstance(n, ast.Name) and n.id in env:
+        return env[n.id]
+    if unparse(n) in env:
+        return env[unparse(n)]
+    if isinstance(n, ast.BinOp) and isinstance(n.op, ast.Add):
+        return f"({_str_expr(n.left, env)} ++ {_str_expr(n.right, env)})"
+    if isinstance(n, ast.JoinedStr):
+        parts = []
+        for v in n.values:
+            if isinstance(v, ast.Constant):
+                parts.append(cstr(const(v, str)))
+            elif isinstance(v, ast.FormattedValue) and v.conversion == -1 and v.format_spec is None:
+                parts.append(_str_expr(v.value, env))
+            else:
+                raise Unrecognised(f"f-string part {unparse(v)}")
+        if not parts:
+            return '""'
+        out = parts[-1]
+        for q in reversed(parts[:-1]):
+            out = f"({q} ++ {out})"
+        return out
+    if isinstance(n, ast.Call) and isinstance(n.func, ast.Attribute) and n.func.attr == "join" and len(n.args) == 1 \
+            and not n.keywords and isinstance(n.args[0], ast.GeneratorExp):
+        g = n.args[0]
+        if len(g.generators) != 1 or g.generators[0].ifs or not isinstance(g.generators[0].target, ast.Name):
+            raise Unrecognised(f"join over {unparse(g)}")
+        var = g.generators[0].target.id
+        src = unparse(g.generators[0].iter)
+        if src not in env:
+            raise Unrecognised(f"join over {src}")
+        body = _str_expr(g.elt, dict(env, **{var: var}))
+        return f"(String.concat {cstr(const(n.func.value, str))} (map (fun {var} => {body}) {env[src]}))"
+    raise Unrecognised(f"string expression {unparse(n)}")
+
+
+def _title(dw):
+    """DataclassWrapper.title as a Gallina function of (qualname, destinations)"""
+    fn = find_def(dw, "title", cls="DataclassWrapper")
+    env = {"self.dataclass.__qualname__": "qualname", "self.destinations": "destinations"}
+    out = None
+    for st in clean(fn.body):
+        if isinstance(st, ast.Assign) and len(st.targets) == 1 and isinstance(st.targets[0], ast.Name):
+            env[st.targets[0].id] = _str_expr(st.value, env)
+        elif isinstance(st, ast.Return) and st.value is not None:
+            out = _str_expr(st.value, env)
+            break
+        else:
+            raise Unrecognised(f"DataclassWrapper.title: statement {unparse(st)[:80]}")
+    if out is None:
+        raise Unrecognised("DataclassWrapper.title does not return")
+    return out
+
+
+DESC_ASSIGNS = {
+    "doc": ["docstring.get_attribute_docstring(self.parent.dataclass, self._field.name)", "dp_parse(class_docstring)"],
+    "class_docstring": ["inspect_getdoc(self.dataclass) or ''"],
+    "description": ["_description_from_docstring(doc)"],
+    "num_lines": ["len(description.splitlines())"],
+    "shortened_description": ["'\\n'.join(description.splitlines()[:MAX_DOCSTRING_DESC_LINES_HEIGHT]) + ' ...'"],
+    "fields_have_docstrings": ["any((f._docstring.help_string for f in self.fields))"],
+    "docstring_is_huge": ["num_lines > MAX_DOCSTRING_DESC_LINES_HEIGHT"],
+}
+DESC_TESTS = {
+    "self.parent and self._field": "is_member",
+    "doc is not None": "true",
+    "doc.docstring_below": '(negb (String.eqb below ""))',
+    "doc.comment_above": '(negb (String.eqb above ""))',
+    "doc.comment_inline": '(negb (String.eqb inline ""))',
+    "not class_docstring": '(String.eqb class_docstring "")',
+    "not fields_have_docstrings": "(negb fields_have_docstrings)",
+    "fields_have_docstrings": "fields_have_docstrings",
+    "docstring_is_huge": "huge",
+    "not docstring_is_huge": "(negb huge)",
+}
+DESC_RETURNS = {"doc.docstring_below": "below", "doc.comment_above": "above", "doc.comment_inline": "inline", "''": '""',
+                "description": "description", "shortened_description": "shortened"}
+
+
+def _description(dw):
+    """DataclassWrapper.description as a Gallina function; assignments are checked against what the variables of the
+    generated function stand for, the control flow is translated (an `if` that does not return falls through)"""
+    fn = find_def(dw, "description", cls="DataclassWrapper")
+
+    def stmts(body, k):
+        if not body:
+            if k is None:
+                raise Unrecognised("DataclassWrapper.description may fall off the end")
+            return k
+        st, rest = body[0], body[1:]
+        if isinstance(st, ast.ImportFrom):
+            if unparse(st) != "from simple_parsing.decorators import _description_from_docstring":
+                raise Unrecognised(f"DataclassWrapper.description: {unparse(st)}")
+            return stmts(rest, k)
+        if isinstance(st, ast.Assign) and len(st.targets) == 1 and isinstance(st.targets[0], ast.Name):
+            name = st.targets[0].id
+            if name not in DESC_ASSIGNS or unparse(st.value) not in DESC_ASSIGNS[name]:
+                raise Unrecognised(f"DataclassWrapper.description: {unparse(st)[:120]}")
+            return stmts(rest, k)
+        if isinstance(st, ast.Return):
+            t = unparse(st.value) if st.value is not None else None
+            if t not in DESC_RETURNS:
+                raise Unrecognised(f"DataclassWrapper.description: return {t}")
+            return DESC_RETURNS[t]
+        if isinstance(st, ast.If):
+            after = stmts(rest, k) if (rest or k is not None) else None
+            arms, els = if_chain(st)
+            out = stmts(els, after)
+            for test, b in reversed(arms):
+                tt = DESC_TESTS.get(unparse(test))
+                if tt is None:
+                    raise Unrecognised(f"DataclassWrapper.description: test {unparse(test)}")
+                out = f"(if {tt} then {stmts(b, after)} else {out})"
+            return out
+        raise Unrecognised(f"DataclassWrapper.description: statement {unparse(st)[:80]}")
+
+    return stmts(clean(fn.body), None)
 
 
 def _arg_help(fwt):
@@ -298,18 +412,130 @@ def _ext_default_test(fwt):
     if not chains:
         raise Unrecognised("FieldWrapper.default: decision chain")
     arms, _els = if_chain(chains[0])
-    test, body = arms[0]
+    mine = [(t, b) for t, b in arms if "self._default" in unparse(t).replace("self._default_factory", "")]
+    if len(mine) != 1:
+        raise Unrecognised("FieldWrapper.default: not exactly one arm tests self._default")
+    test, body = mine[0]
     if "default = self._default" not in [unparse(x) for x in body]:
-        raise Unrecognised("FieldWrapper.default: the first arm does not use self._default")
-    for t, _b2 in arms[1:]:
-        if "self._default" in unparse(t):
-            raise Unrecognised("FieldWrapper.default: self._default tested again further down")
+        raise Unrecognised("FieldWrapper.default: the arm that tests self._default does not use it")
     t = unparse(test)
     if t in ("self._default is not None", "self._default != None"):
         return "true"
     if t in ("self._default", "bool(self._default)"):
         return "negb falsy"
     raise Unrecognised(f"FieldWrapper.default: test on self._default is `{t}`")
+
+
+DEFAULT_ARMS = {
+    "self._default is not None": "DExt", "self._default != None": "DExt", "self._default": "DExt", "bool(self._default)": "DExt",
+    "self.is_subgroup": "DSubgroup",
+    "any((parent_default not in (None, argparse.SUPPRESS) for parent_default in self.parent.defaults))": "DParent",
+    "self.field.default is not dataclasses.MISSING": "DField",
+    "self.field.default_factory is not dataclasses.MISSING": "DFactory",
+    "self.action == 'store_true'": "DStoreTrue",
+    "self.action == 'store_false'": "DStoreFalse",
+}
+DEFAULT_ARM_VALUE = {"DExt": "default = self._default", "DSubgroup": "default = self.subgroup_default", "DField": "default = self.field.default",
+                     "DFactory": "default = self._default_factory_result", "DStoreTrue": "default = False", "DStoreFalse": "default = True"}
+
+
+def _default_chain(fwt):
+    """the arms of the decision chain of FieldWrapper.default, in order; the value each arm assigns is checked"""
+    fn = find_def(fwt, "default", cls="FieldWrapper")
+    chains = [s for s in clean(fn.body) if isinstance(s, ast.If)]
+    if not chains:
+        raise Unrecognised("FieldWrapper.default: decision chain")
+    arms, els = if_chain(chains[0])
+    kinds = []
+    for test, body in arms:
+        k = DEFAULT_ARMS.get(unparse(test))
+        if k is None:
+            raise Unrecognised(f"FieldWrapper.default: arm test `{unparse(test)[:100]}`")
+        texts = [unparse(x) for x in ast.walk(ast.Module(body=body, type_ignores=[])) if isinstance(x, ast.Assign)
+                 and unparse(x.targets[0]) == "default"]
+        if k == "DParent":
+            if sorted(set(texts)) != ["default = defaults", "default = defaults[0]"]:
+                raise Unrecognised(f"FieldWrapper.default: parent-default arm assigns {texts}")
+        elif texts != [DEFAULT_ARM_VALUE[k]]:
+            raise Unrecognised(f"FieldWrapper.default: arm {k} assigns {texts}")
+        kinds.append(k)
+    if len(set(kinds)) != len(kinds):
+        raise Unrecognised(f"FieldWrapper.default: an arm occurs twice {kinds}")
+    if [unparse(x) for x in els] != ["default = None"]:
+        raise Unrecognised("FieldWrapper.default: the final else")
+    return kinds
+
+
+def _bool_action(repo):
+    """what BooleanOptionalAction.__init__ hands to argparse as option_strings, as a function of (positive, negative)"""
+    ca = parse(repo, "simple_parsing/helpers/custom_actions.py")
+    init = find_def(ca, "__init__", cls="BooleanOptionalAction")
+    calls = [n for n in ast.walk(init) if isinstance(n, ast.Call) and unparse(n.func) == "super().__init__"]
+    if len(calls) != 1:
+        raise Unrecognised("BooleanOptionalAction.__init__: super().__init__ call")
+    kws = {k.arg: k.value for k in calls[0].keywords}
+    if "option_strings" not in kws or calls[0].args:
+        raise Unrecognised("BooleanOptionalAction.__init__: option_strings keyword")
+
+    def ex(n):
+        t = unparse(n)
+        if t in ("option_strings", "list(option_strings)"):
+            return "pos"
+        if t == "self.negative_option_strings":
+            return "negs"
+        if isinstance(n, ast.BinOp) and isinstance(n.op, ast.Add):
+            return f"({ex(n.left)} ++ {ex(n.right)})%list"
+        raise Unrecognised(f"BooleanOptionalAction.__init__: option_strings={t}")
+
+    pre = [unparse(s) for s in clean(init.body) if isinstance(s, ast.Assign) and unparse(s.targets[0]) == "option_strings"]
+    if pre != ["option_strings = list(option_strings)"]:
+        raise Unrecognised(f"BooleanOptionalAction.__init__: option_strings reassigned {pre}")
+    return ex(kws["option_strings"])
+
+
+def _blank_help(std):
+    """argparse.HelpFormatter._format_action: the help text is printed `if action.help and action.help.strip()`, expanded by
+    _expand_help (`self._get_help_string(action) % params`, params = vars(action))"""
+    fa = find_def(std, "_format_action", cls="HelpFormatter")
+    tests = [unparse(n.test) for n in ast.walk(fa) if isinstance(n, ast.If)]
+    if "action.help and action.help.strip()" in tests:
+        blank = True
+    elif "action.help" in tests and "action.help and action.help.strip()" not in tests and tests.count("action.help") >= 1 \
+            and "not action.help" in tests:
+        blank = False
+    else:
+        raise Unrecognised(f"argparse.HelpFormatter._format_action: help tests {tests}")
+    guarded = [n for n in ast.walk(fa) if isinstance(n, ast.If) and unparse(n.test) in ("action.help and action.help.strip()", "action.help")]
+    if not any("help_text = self._expand_help(action)" in [unparse(x) for x in g.body] for g in guarded):
+        raise Unrecognised("argparse.HelpFormatter._format_action: the help text is not _expand_help(action)")
+    eh = find_def(std, "_expand_help", cls="HelpFormatter")
+    body = [unparse(x) for x in clean(eh.body)]
+    if body[0] != "params = dict(vars(action), prog=self._prog)" or body[-1] != "return self._get_help_string(action) % params":
+        raise Unrecognised("argparse.HelpFormatter._expand_help")
+    return blank
+
+
+def _guards(dw, fwt, pt):
+    """code sites the model relies on without a value to regenerate: recognised shape or fail closed"""
+    # the groups are added in the order of the flattened wrapper list: every root followed by its descendants, pre-order
+    fl = find_def(pt, "_flatten_wrappers")
+    if [unparse(x) for x in clean(fl.body)][-2:] != ["roots_only = _unflatten_wrappers(wrappers)",
+                                                      "return sum(([w] + list(w.descendants) for w in roots_only), [])"]:
+        raise Unrecognised("_flatten_wrappers: traversal")
+    ds = find_def(dw, "descendants", cls="DataclassWrapper")
+    if [unparse(x) for x in clean(ds.body)] != ["for child in self._children:\n    yield child\n    yield from child.descendants"]:
+        raise Unrecognised("DataclassWrapper.descendants: traversal")
+    # the action's dest is the field's destination; the keyword arguments are computed once and cached (set-up freezes defaults)
+    ga = find_def(fwt, "get_arg_options", cls="FieldWrapper")
+    if "_arg_options['dest'] = self.dest" not in [unparse(x) for x in ast.walk(ga) if isinstance(x, ast.Assign)]:
+        raise Unrecognised("get_arg_options: dest=")
+    ao = find_def(fwt, "arg_options", cls="FieldWrapper")
+    at = [unparse(x) for x in clean(ao.body)]
+    if at[0] != "if self._arg_options:\n    return self._arg_options" or at[-1] != "return self._arg_options":
+        raise Unrecognised("FieldWrapper.arg_options: caching")
+    sd = find_def(fwt, "set_default", cls="FieldWrapper")
+    if [unparse(x) for x in clean(sd.body)] != ["self._default = value"]:
+        raise Unrecognised("FieldWrapper.set_default")
 
 
 def _b(x):
@@ -324,6 +550,12 @@ def emit(repo: str) -> str:
     std = _std()
     skip, cmd_default = _skip_test(dw)
     _add_arguments(dw)
+    _guards(dw, fwt, pt)
+    title = _title(dw)
+    description = _description(dw)
+    chain = _default_chain(fwt)
+    bool_opts = _bool_action(repo)
+    blank = _blank_help(std)
     arg_help = _arg_help(fwt)
     ext_wins = _ext_default_test(fwt)
     token, bases, adds, strips = _formatter(hf, std)
@@ -335,6 +567,12 @@ def emit(repo: str) -> str:
         f"Definition TEMPORARY_TOKEN_gen : string := {cstr(token)}.\n"
         f"Definition arg_help_gen (help : string) (default : option string) : option string :=\n  {arg_help}.\n"
         f"Definition ext_wins_gen (falsy : bool) : bool := {ext_wins}.\n"
+        f"Definition default_chain_gen : list darm := [{'; '.join(chain)}].\n"
+        f"Definition blank_help_hidden_gen : bool := {_b(blank)}.\n"
+        f"Definition bool_action_opts_gen (pos negs : list string) : list string := {bool_opts}.\n"
+        f"Definition title_gen (qualname : string) (destinations : list string) : string :=\n  {title}.\n"
+        "Definition description_gen (is_member : bool) (below above inline class_docstring description shortened : string)\n"
+        f"    (fields_have_docstrings huge : bool) : string :=\n  {description}.\n"
         f"Definition formatter_bases_gen : list string := [{'; '.join(cstr(b) for b in bases)}].\n"
         f"Definition adds_default_gen : bool := {_b(adds)}.\n"
         f"Definition strips_token_gen : bool := {_b(strips)}.\n"
@@ -345,20 +583,24 @@ def emit(repo: str) -> str:
         "(* the model instantiated with the regenerated facts; `perm` is the hash-seed oracle *)\n"
         "Definition exposedb_gen := exposedb skip_gen cmd_default_gen.\n"
         "Definition ordered_opts_gen := ordered_opts option_order_preserved_gen.\n"
-        "Definition entry_of_gen := entry_of arg_help_gen TEMPORARY_TOKEN_gen adds_default_gen strips_token_gen ext_wins_gen DEFAULT_NEGATIVE_PREFIX option_order_preserved_gen.\n"
-        "Definition help_entries_gen := help_entries skip_gen cmd_default_gen arg_help_gen TEMPORARY_TOKEN_gen adds_default_gen strips_token_gen ext_wins_gen DEFAULT_NEGATIVE_PREFIX option_order_preserved_gen.\n"
+        "Definition entry_of_gen := entry_of arg_help_gen TEMPORARY_TOKEN_gen adds_default_gen strips_token_gen ext_wins_gen DEFAULT_NEGATIVE_PREFIX\n"
+        "  default_chain_gen blank_help_hidden_gen bool_action_opts_gen option_order_preserved_gen.\n"
+        "Definition help_entries_gen := help_entries skip_gen cmd_default_gen arg_help_gen TEMPORARY_TOKEN_gen adds_default_gen strips_token_gen ext_wins_gen DEFAULT_NEGATIVE_PREFIX\n"
+        "    default_chain_gen blank_help_hidden_gen bool_action_opts_gen title_gen description_gen option_order_preserved_gen.\n"
         "Definition resolver_gen (perm : list string -> list string) (c : cfg) (m : crmode) : list fw -> res (list fw) :=\n"
         "  resolve_gen (ordered_opts_gen perm c) m.\n"
         "Definition setup_gen (perm : list string -> list string) (c : cfg) (m : crmode) := setup skip_gen cmd_default_gen (resolver_gen perm c m).\n"
         "Definition api_defaults_gen := api_defaults print_help_applies_config_gen.\n"
         "(* the three observable behaviours on an already computed set-up outcome ... *)\n"
         "Definition cli_help_of_gen (perm : list string -> list string) :=\n"
-        "  cli_help_of skip_gen cmd_default_gen arg_help_gen TEMPORARY_TOKEN_gen adds_default_gen strips_token_gen ext_wins_gen DEFAULT_NEGATIVE_PREFIX option_order_preserved_gen perm\n"
+        "  cli_help_of skip_gen cmd_default_gen arg_help_gen TEMPORARY_TOKEN_gen adds_default_gen strips_token_gen ext_wins_gen DEFAULT_NEGATIVE_PREFIX\n"
+        "    default_chain_gen blank_help_hidden_gen bool_action_opts_gen title_gen description_gen option_order_preserved_gen perm\n"
         "              help_status_gen help_stdout_gen.\n"
         "Definition api_help_of_gen (perm : list string -> list string) :=\n"
-        "  api_help_of skip_gen cmd_default_gen arg_help_gen TEMPORARY_TOKEN_gen adds_default_gen strips_token_gen ext_wins_gen DEFAULT_NEGATIVE_PREFIX option_order_preserved_gen perm\n"
+        "  api_help_of skip_gen cmd_default_gen arg_help_gen TEMPORARY_TOKEN_gen adds_default_gen strips_token_gen ext_wins_gen DEFAULT_NEGATIVE_PREFIX\n"
+        "    default_chain_gen blank_help_hidden_gen bool_action_opts_gen title_gen description_gen option_order_preserved_gen perm\n"
         "              print_help_sets_up_gen print_help_applies_config_gen.\n"
-        "Definition parse_defaults_of_gen := parse_defaults_of skip_gen cmd_default_gen ext_wins_gen print_help_sets_up_gen print_help_applies_config_gen.\n"
+        "Definition parse_defaults_of_gen := parse_defaults_of skip_gen cmd_default_gen ext_wins_gen default_chain_gen print_help_sets_up_gen print_help_applies_config_gen.\n"
         "(* ... and composed with set-up: parse_args([\"--help\"]), print_help(), a parse with an empty command line *)\n"
         "Definition run_cli_help_gen (perm : list string -> list string) (c : cfg) (m : crmode) (pre cfgf : dmap) (F : list hwrap) :=\n"
         "  cli_help_of_gen perm c pre cfgf (setup_gen perm c m F).\n"
